@@ -37,16 +37,22 @@ CONSTANTS NN,          \* number of non-final states of the chain
           DevTaskDefaultNone,   \* D6: Task.wait() normalises "no state" to [None]
           DevNoFinalExit,       \* D7: Task.wait/Pilot.wait loops ignore "final in another state"
           DevPilotNoneReturn,   \* D7: Pilot.wait returns None if already in an awaited final state
-          DevStaleApplied       \* a stale notification is applied to the client-side object
+          DevStaleApplied,      \* a stale notification is applied to the client-side object
+          OddKinds,             \* odd bulk entries the environment uses: subset of {"contra", "stale", "dup"}
+          RecordOdd,            \* keep the odd entry of the last bulk in the state (for simulation dumps)
+          DevBulkAbortOn        \* odd entry kinds on which the bulk loop raises ({} = intended):
+                                \* the listener logs the exception, the rest of the message is lost
 
 VARIABLES api, kind, awaited, rform, R, timeout,     \* the call (chosen in Init)
           tick, st, closing,                          \* environment; st: furthest state notified
           seen,                                       \* client-side state the loops read
+          raced,                                      \* entities with contradicting final notifications
+          odd,                                        \* <<b, kind, k>> of the last bulk, if RecordOdd
           pc, chk, aw,                                \* waiter: control, to_check, uids it settled on
           everHi, everLo, dueHi, dueLo,               \* ghosts
           rtick, rval, rshape, rclosed                \* the return
 
-vars == <<api, kind, awaited, rform, R, timeout, tick, st, closing, seen, pc, chk, aw,
+vars == <<api, kind, awaited, rform, R, timeout, tick, st, closing, seen, raced, odd, pc, chk, aw,
           everHi, everLo, dueHi, dueLo, rtick, rval, rshape, rclosed>>
 params == <<api, kind, awaited, rform, R, timeout>>
 
@@ -69,6 +75,29 @@ Views(f) == IF DevStaleApplied
                      g[e] = f[e] \/ (e \in awaited /\ ~Final(NN, g[e]) /\ g[e] < Val(NN, f[e]))}
             ELSE {f}
 
+\* Task notifications come in BULKS: one message carries the entries of several
+\* tasks (TaskManager._state_sub_cb -> _update_tasks loops over them).  Per tick
+\* the model delivers one bulk with the regular entries in entity order, and
+\* the environment may add ONE odd entry for an entity b, placed behind the
+\* regular entries of the entities <= k (k = 0: first, k = NE: last):
+\*   "contra" : another final state for a task which is final already
+\*              (CANCELED seen, then DONE / FAILED: the execution won the race)
+\*   "stale"  : an older state of b        "dup" : the current state of b again
+\* In the intended design an odd entry is a no-op for b (a raced task keeps a
+\* final state) and every other entry of the bulk is applied.  If the loop
+\* raises on the odd entry (DevBulkAbortOn), the pubsub listener logs the
+\* exception and the entries behind it are LOST: those tasks keep their old
+\* client-side state although their notification was sent.
+\* (Pilot notifications are delivered one pilot per message.)
+Bulked    == api \in {"task", "tmgr"}
+OddOK(b, kd, k) ==
+  IF b = 0 THEN kd = "none" /\ k = NE
+  ELSE /\ Bulked /\ kd \in OddKinds
+       /\ kd = "contra" => Final(NN, st[b])
+       /\ kd = "stale"  => Val(NN, st[b]) > 0
+       /\ kd \notin DevBulkAbortOn => k = NE
+Lost(e, b, kd, k) == b # 0 /\ kd \in DevBulkAbortOn /\ e > k
+
 Init ==
   /\ api \in Apis
   /\ IF api \in {"task", "pilot"}
@@ -80,9 +109,9 @@ Init ==
   /\ rform \in (IF R = {} THEN {"none"} ELSE IF Cardinality(R) = 1 THEN {"scalar", "list"} ELSE {"list"})
   /\ timeout \in Timeouts
   /\ st \in [E -> Codes(NN)]
-  /\ \A e \in E \ awaited : st[e] = 0
+  /\ \A e \in E \ awaited : st[e] \in (IF Bulked THEN {0, NN + 2} ELSE {0})   \* bystanders: NEW (or CANCELED)
   /\ closing \in (IF MayClose THEN BOOLEAN ELSE {FALSE})
-  /\ seen \in Views(st)
+  /\ seen \in Views(st) /\ raced = {} /\ odd = <<0, "none", NE>>
   /\ tick = 0 /\ pc = "idle" /\ chk = {} /\ aw = {}
   /\ everHi = [e \in E |-> SatHi(st[e])]
   /\ everLo = [e \in E |-> SatLo(st[e])]
@@ -129,48 +158,61 @@ Call ==
             /\ aw' = a
             /\ IF a = {} \/ closing THEN Return(0, seen, closing, SortedSeq(a)) /\ UNCHANGED chk
                                     ELSE Sleep /\ chk' = KeepP(seen, a)
-  /\ UNCHANGED <<params, tick, st, closing, seen, everHi, everLo, dueHi, dueLo>>
+  /\ UNCHANGED <<params, tick, st, closing, seen, raced, odd, everHi, everLo, dueHi, dueLo>>
 
 \* one sleep: the environment moves, then the waiter evaluates up to its next sleep
 EnvNext(ns) == \A e \in E : IF tick < TrajEnd /\ e \in awaited THEN LegalStep(NN, st[e], ns[e])
                                                                ELSE ns[e] = st[e]
 
-Poll(ns, sn, cl) ==
+Poll(ns, sn, cl, b, kd, k) ==
   /\ pc = "sleep" /\ tick < MaxTick
   /\ EnvNext(ns) /\ sn \in Views(ns) /\ (closing => cl) /\ (cl => MayClose)
+  /\ OddOK(b, kd, k)
   /\ LET t   == tick + 1
          eh  == [e \in E |-> everHi[e] \/ SatHi(ns[e])]
          el  == [e \in E |-> everLo[e] \/ SatLo(ns[e])]
+         \* what the objects hold afterwards: an entity without a notification in
+         \* this tick, or whose entry was lost, keeps its client-side state
+         se  == [e \in E |-> IF Lost(e, b, kd, k) \/ (ns[e] = st[e] /\ sn[e] = ns[e])
+                              THEN seen[e] ELSE sn[e]]
      IN
-     /\ tick' = t /\ st' = ns /\ seen' = sn /\ closing' = cl
+     /\ tick' = t /\ st' = ns /\ seen' = se /\ closing' = cl
+     /\ raced' = IF kd = "contra" THEN raced \cup {b} ELSE raced
+     /\ odd' = IF RecordOdd THEN <<b, kd, k>> ELSE odd
      /\ everHi' = eh /\ everLo' = el
      /\ dueHi' = NextDue(dueHi, AllEver(eh), timeout, t)
      /\ dueLo' = NextDue(dueLo, AllEver(el), timeout, t)
      /\ CASE api \in {"task", "pilot"} ->
-               /\ IF TimedOut(timeout, t) \/ cl \/ ~Cont(sn[Self])
-                  THEN Return(t, sn, cl, <<Self>>) ELSE Sleep
+               /\ IF TimedOut(timeout, t) \/ cl \/ ~Cont(se[Self])
+                  THEN Return(t, se, cl, <<Self>>) ELSE Sleep
                /\ UNCHANGED chk
           [] api = "tmgr" ->
-               LET c == KeepT(sn, chk) IN
+               LET c == KeepT(se, chk) IN
                /\ chk' = c
                /\ IF c = {} \/ cl \/ TimedOut(timeout, t)
-                  THEN Return(t, sn, cl, SortedSeq(aw)) ELSE Sleep
+                  THEN Return(t, se, cl, SortedSeq(aw)) ELSE Sleep
           [] api = "pmgr" ->
                IF chk = {} \/ cl
-               THEN Return(t, sn, cl, SortedSeq(aw)) /\ UNCHANGED chk
-               ELSE LET c == KeepP(sn, chk) IN
+               THEN Return(t, se, cl, SortedSeq(aw)) /\ UNCHANGED chk
+               ELSE LET c == KeepP(se, chk) IN
                     /\ chk' = c
                     /\ IF c # {} /\ TimedOut(timeout, t)
-                       THEN Return(t, sn, cl, SortedSeq(aw)) ELSE Sleep
+                       THEN Return(t, se, cl, SortedSeq(aw)) ELSE Sleep
   /\ UNCHANGED <<params, aw>>
 
-Next == Call \/ \E ns \in [E -> Codes(NN)], cl \in BOOLEAN : \E sn \in Views(ns) : Poll(ns, sn, cl)
+\* the odd entries possible in this state (evaluated once per state)
+Odds == {<<0, "none", NE>>} \cup
+        (IF Bulked THEN {o \in E \X OddKinds \X (0 .. NE) : OddOK(o[1], o[2], o[3])} ELSE {})
+
+Next == \/ Call
+        \/ \E o \in Odds : \E ns \in [E -> Codes(NN)], cl \in BOOLEAN : \E sn \in Views(ns) :
+             Poll(ns, sn, cl, o[1], o[2], o[3])
 Spec == Init /\ [][Next]_vars
 
 (* ---- properties ------------------------------------------------------------ *)
 TypeOK ==
   /\ pc \in {"idle", "sleep", "ret"} /\ tick \in 0 .. MaxTick
-  /\ st \in [E -> Codes(NN)] /\ seen \in [E -> Codes(NN)] /\ chk \subseteq E /\ aw \subseteq E
+  /\ st \in [E -> Codes(NN)] /\ seen \in [E -> Codes(NN)] /\ chk \subseteq E /\ aw \subseteq E /\ raced \subseteq E
   /\ dueHi \in {NONE} \cup (0 .. MaxTick) /\ dueLo \in {NONE} \cup (0 .. MaxTick)
 
 \* C15.Prompt: the call does not go to sleep again after its due tick, and it
@@ -180,11 +222,12 @@ InvPrompt ==
   /\ pc = "ret"   => PromptOK(dueHi, rtick)
 \* C15.NotEarly
 InvNotEarly == pc = "ret" => NotEarlyOK(dueLo, rtick, rclosed)
-\* C15.Truthful (the actual state at return is st: nothing moves after the return)
+\* C15.Truthful (the actual state at return is st: nothing moves after the return;
+\* a task with contradicting final notifications may hold any final state)
 InvTruthful ==
   pc = "ret" => /\ ShapeOK(kind, rshape)
-                /\ \/ ValuesOK(rval, st, SortedSeq(awaited))
-                   \/ kind = "all" /\ ValuesOK(rval, st, SortedSeq(aw))
+                /\ \/ ValuesAltOK(NN, rval, st, raced, SortedSeq(awaited))
+                   \/ kind = "all" /\ ValuesAltOK(NN, rval, st, raced, SortedSeq(aw))
 \* the two readings of "due" are ordered
 InvDueOrder == dueHi # NONE => (dueLo # NONE /\ dueLo <= dueHi)
 =============================================================================
